@@ -136,10 +136,14 @@ func walletsOf(dir string) (map[string]string, error) {
 		if err != nil {
 			return nil, err
 		}
-		out[id] = string(b)
+		// the creation time stamp (wall clock seconds) differs between two runs of the same
+		// creating operation; it is not content the property speaks about
+		out[id] = tmRe.ReplaceAllString(string(b), `"tm": "T"`)
 	}
 	return out, nil
 }
+
+var tmRe = regexp.MustCompile(`"tm":\s*"\d+"`)
 
 func kvOf(dir string) (map[string]string, error) {
 	c := kvstorage.NewConfig()
@@ -321,11 +325,27 @@ func TestC20_CrashDuringSave(t *testing.T) {
 			run := hx.TempDir("c20run")
 			copyDir(t, sc.base, run)
 			args := append([]string{sc.op, run}, sc.args...)
-			ents2, killed := runTraced(t, helper, args, fmt.Sprintf("%s:signal=KILL:when=%d", e.name, e.ord))
-			_ = ents2
-			if !killed {
-				// the ordinal was not reached in this run (thread scheduling differs): the operation completed
-				r.Count("injection_not_reached")
+			var killed bool
+			for attempt := 0; attempt < 3; attempt++ {
+				var ents2 []scEntry
+				ents2, killed = runTraced(t, helper, args, fmt.Sprintf("%s:signal=KILL:when=%d", e.name, e.ord))
+				// the run must have performed exactly the first i syscalls of the plan (plus the killed one)
+				if killed && alignedWithPlan(ents2, plan, i) {
+					break
+				}
+				if attempt == 2 {
+					// still a genuine crash state of the real save (the oracle is sound for any), but not the planned one
+					if killed {
+						r.Count("injection_elsewhere")
+					} else {
+						r.Count("injection_not_reached")
+					}
+					break
+				}
+				os.RemoveAll(run)
+				run = hx.TempDir("c20run")
+				copyDir(t, sc.base, run)
+				args = append([]string{sc.op, run}, sc.args...)
 			}
 			what := fmt.Sprintf("before syscall %d/%d (%s %s)", i+1, len(plan), e.name, trimRest(e.rest))
 			check(run, what, touched)
@@ -357,6 +377,29 @@ func TestC20_CrashDuringSave(t *testing.T) {
 			r.Sample(true, map[string]interface{}{"operation": sc.op, "args": sc.args, "syscalls_of_the_save": strings.Split(describePlan(plan), "; ")})
 		}
 	})
+}
+
+// alignedWithPlan: after the marker the injected run shows the first i planned syscalls, then the killed one
+func alignedWithPlan(ents []scEntry, plan []scEntry, i int) bool {
+	start := -1
+	for k, e := range ents {
+		if strings.Contains(e.rest, "VERIF_MARKER") {
+			start = k + 1
+		}
+	}
+	if start < 0 {
+		return false
+	}
+	got := ents[start:]
+	if len(got) != i+1 {
+		return false
+	}
+	for k := range got {
+		if got[k].name != plan[k].name {
+			return false
+		}
+	}
+	return true
 }
 
 var fdPathRe = regexp.MustCompile(`^\d+<([^>]+)>`)
